@@ -220,7 +220,7 @@ def configure (k : SeqKind) (o : Opts) : Res Unit :=
 structure SeqState (α : Type) where
   content : List α
   clearPending : Bool
-  deriving Repr
+  deriving Repr, DecidableEq
 
 def SeqState.start {α : Type} (init : List α) (o : Opts) : SeqState α := ⟨init, o.clear⟩
 
@@ -314,7 +314,7 @@ end seq
 structure ArrState where
   slots : List Int       -- all N slots of the array
   idx : Nat              -- `mIndex`
-  deriving Repr
+  deriving Repr, DecidableEq
 
 /-- checked store `mDestVar[ mIndex] = v` -/
 def ArrState.store (s : ArrState) (v : Int) : Res ArrState :=
@@ -524,7 +524,7 @@ structure TupState where
   b : Int
   numSet : Nat      -- `mNumValuesSet`
   card : Nat        -- `CardinalityExact::mNumValues`
-  deriving Repr
+  deriving Repr, DecidableEq
 
 def tupLen : Nat := 3
 
